@@ -29,7 +29,13 @@ type mutexState struct {
 func (ex *Exec) freshInternal(label string, s Sort) *Term {
 	n := ex.symCounter["$"+label]
 	ex.symCounter["$"+label] = n + 1
-	return ex.ts.Var(fmt.Sprintf("$%s#%d", label, n), s)
+	name := fmt.Sprintf("$%s#%d", label, n)
+	if ex.cfg.FixedInputs != nil {
+		if v, ok := ex.cfg.FixedInputs[name]; ok {
+			return ex.constFromGo(v, s)
+		}
+	}
+	return ex.ts.Var(name, s)
 }
 
 func argStr(v Value) string {
@@ -362,6 +368,14 @@ func BaseIntrinsics() map[string]IntrinsicFn {
 	}
 	m[ZZ+".Assume"] = func(ex *Exec, fr *frame, a []Value) Value { ex.assume(a[0].(*Term)); return nil }
 	m[ZZ+".Assert"] = func(ex *Exec, fr *frame, a []Value) Value {
+		if ex.cfg.FixedInputs != nil {
+			c := ex.simp(a[0].(*Term))
+			if c.IsConst() {
+				ex.ConcreteTrace = append(ex.ConcreteTrace, fmt.Sprintf("assert:%s:%v", argStr(a[1]), c.V == 1))
+			} else {
+				ex.ConcreteTrace = append(ex.ConcreteTrace, fmt.Sprintf("assert:%s:symbolic", argStr(a[1])))
+			}
+		}
 		ex.obligation(a[0].(*Term), "assert", argStr(a[1]), fr)
 		return nil
 	}
@@ -371,6 +385,9 @@ func BaseIntrinsics() map[string]IntrinsicFn {
 	}
 	m[ZZ+".Reach"] = func(ex *Exec, fr *frame, a []Value) Value {
 		ex.Stats.Reached[argStr(a[0])]++
+		if ex.cfg.FixedInputs != nil {
+			ex.ConcreteTrace = append(ex.ConcreteTrace, "reach:"+argStr(a[0]))
+		}
 		return nil
 	}
 	m[ZZ+".Observe"] = func(ex *Exec, fr *frame, a []Value) Value {
